@@ -59,6 +59,11 @@ def specs(ctx, n):
             sp = sp2
         for c in sp["calls"]:
             c["memory"] = rng.random() < 0.5
+            # every verbosity setting incl. the library default (printing paths divide by the summed times), and N = 0
+            c["verbosity"] = rng.choice([False, False, [], ["progress_bar"], ["print_results"], ["print_times"],
+                                         ["progress_bar", "print_results", "print_times"]])
+            if rng.random() < 0.12:
+                c["n_iter"] = 0
         sp["steps_api"] = False
         out.append(sp)
     return out
@@ -66,7 +71,7 @@ def specs(ctx, n):
 
 def run(ctx):
     u = ctx.unit("D:search(call histories)", "D",
-                 "1-4 consecutive search() calls (N from 1 to 14, smaller/larger than n_inits and population), all "
+                 "1-4 consecutive search() calls (N from 0 to 14, smaller/larger than n_inits and population; every verbosity setting), all "
                  "optimizers in rotation, populations 1..12, degenerate (single-point / size-1) spaces, memory on/off, "
                  "virtual clock with optional read cost; the model driver replays the recorded proposals; "
                  "non-trivial = >= 2 steps in total; distinct by (optimizer, config, space shape, call sizes, seed)")
